@@ -334,7 +334,10 @@ enum ARes {
 
 fn retain(pool: &TPool, sh: &Arc<Sh>, keep: bool) -> Vec<TObj> {
     let sh2 = sh.clone();
+    let asked = std::sync::Arc::new(AtomicUsize::new(0));
+    let asked2 = asked.clone();
     let r = pool.retain(move |o, _| {
+        let _ = asked2.fetch_add(1, Ordering::SeqCst);
         if sh2.chaos.load(Ordering::Relaxed) {
             chaos_delay();
         }
@@ -343,6 +346,12 @@ fn retain(pool: &TPool, sh: &Arc<Sh>, keep: bool) -> Vec<TObj> {
         }
         keep
     });
+    // the predicate's own answers are the reference: all true or all false here
+    let n = asked.load(Ordering::SeqCst);
+    let (want_retained, want_removed) = if keep { (n, 0) } else { (0, n) };
+    if r.retained != want_retained || r.removed.len() != want_removed {
+        sh.viol(&["C09"], "retain_count", format!("retain asked the predicate {} times (always {}), but reports retained={} removed={}", n, keep, r.retained, r.removed.len()));
+    }
     r.removed
 }
 
